@@ -419,8 +419,18 @@ func (x *Exec) convert(a Term, from, to types.Type) (Term, bool) {
 }
 
 func (x *Exec) bvConvert(a Term, fi, ti intInfo) Term {
-	if fi.math || ti.math {
+	if fi.math && ti.math {
 		return a
+	}
+	if ti.math {
+		// bit-vector to unbounded integer (specification type Z)
+		if fi.signed {
+			return ite(sx("bvslt", a, fmt.Sprintf("(_ bv0 %d)", fi.bits)), sx("-", sx("bv2nat", a), intLit(pow2(fi.bits))), sx("bv2nat", a))
+		}
+		return sx("bv2nat", a)
+	}
+	if fi.math {
+		return sx(fmt.Sprintf("(_ int2bv %d)", ti.bits), a)
 	}
 	switch {
 	case fi.bits == ti.bits:
